@@ -124,7 +124,9 @@ func unspell(op Op) Op {
 //	icpt:<name|nil>                              id interceptor: the last one wins (a Value ignores it)
 //	init:<msg|nil>                               initial value: the last one wins (a Collection ignores it)
 //	rec:<id>~<msg>                               initial records accumulate; the same id twice panics, on
-//	                                             a Value too (the option itself panics)
+//	                                             a Value too (the option itself panics); a Collection keeps a
+//	                                             record under icpt(id) for the interceptor the list resolves
+//	                                             to, and panics when two records get the same key
 //	eqv:<name>                                   equivalence: the last one wins; no effect on Get/List/Set/Add/
 //	                                             Update/Delete
 //	nop clk rng                                  EmptyOption / where WithClock, WithRNG stand: no effect
@@ -172,6 +174,16 @@ func resolveRes(c Cfg) Cfg {
 		out.Icpt = ""
 		if initV != "" {
 			out.Init = []string{initV}
+		}
+	} else if out.Icpt != "" {
+		// two records whose ids the interceptor maps to one key: the second cannot be added either
+		keys := map[string]bool{}
+		for _, rec := range out.Init {
+			k := namedIcpt(out.Icpt)(strings.SplitN(rec, "~", 2)[0])
+			if keys[k] {
+				out.Panics = true
+			}
+			keys[k] = true
 		}
 	}
 	return out
